@@ -532,6 +532,9 @@ func (s *session) exec(op string) string {
 			p = []byte{0x00, 0x00, 0x00, 0x00}
 		}
 		err = c.send(frame{typ: frameMethod, channel: h, payload: p})
+	case "IDLE": // IDLE c <dead> ms : the client sends nothing for ms milliseconds (<dead> is for the model: the
+		// negotiated heartbeat timeout passes and the broker must drop the connection)
+		time.Sleep(time.Duration(atoi(f[3])) * time.Millisecond)
 	case "HB": // HB c h : heartbeat frame
 		err = c.send(frame{typ: 8, channel: h, payload: nil})
 	case "RAW": // RAW c kind seed : hostile bytes (built deterministically from kind and seed)
@@ -557,7 +560,11 @@ func (s *session) exec(op string) string {
 		w := method(10, 31)
 		w.short(uint16(atoi(f[3])))
 		w.long(uint32(atoi(f[4])))
-		w.short(0)
+		hb := 0
+		if len(f) > 5 {
+			hb = atoi(f[5]) // TUNEOK c <within> channel-max frame-max heartbeat
+		}
+		w.short(uint16(hb))
 		err = c.sendMethod(0, w)
 	case "COPEN": // COPEN c <ok> vhost
 		w := method(10, 40)
